@@ -27,6 +27,13 @@ RULE = ("placement cases: a node set of 1-8 names (host:port look-alikes such as
         "different PYTHONHASHSEED produce the same placement digest as the in-process reference. Non-trivial: >=3 "
         "nodes and (non-identity permutation checked, or history containing a removal, or an actual tie occurred), or "
         "a spelling/cross-process case.")
+MANIFEST = {
+    "category": "exploration",
+    "technique": "Hypothesis-generated node sets, key corpora and add/remove/lookup histories; all insertion permutations enumerated (n<=6); differential against an independent statement of the rendezvous rule; metamorphic relations (permutation, history, removal/addition disruption); cross-process digest comparison",
+    "text": "Placement is compared key by key with an independent reference of the published rule over generated node sets, under every insertion order (all n! up to 6 nodes), after arbitrary add/remove histories with lookups interleaved, with tie-forcing hashes, from equivalent address spellings, and across interpreters with different PYTHONHASHSEED. Sampling, not proof; the tie and order logic is small enough that short generated cases reach all of it.",
+    "note": "Trusts vlib/refhash.py; keys or node names beyond Latin-1 are only checked for order/history independence.",
+    "design_ref": "DESIGN.md 3/C11"
+}
 ASSUMPTIONS = [
     "reference rule and MurmurHash3 in vlib/refhash.py are correct (published vectors; C cross-check in C14)",
     "for keys/nodes with code points > 255 the byte reference is undefined; only order/history/disruption are asserted there",
